@@ -23,6 +23,7 @@ from .poly import Sym, Atom, S, tosym, pconst, padd, psub, pmul, pneg, SymUnsupp
 _orig = dict(einsum=np.einsum, qr=np.linalg.qr, svd=np.linalg.svd, norm=np.linalg.norm, vdot=np.vdot)
 
 STUB_LOG = []          # (kind, shape) per call on the current path; reset by harnesses
+FROBENIUS_LEMMA = [False]   # opt-in: add the implied identity sum |a|^2 = sum s^2 to the hypotheses of every SVD stub call
 SVD_CALLS = []         # (U, s, V) of every symbolic svd stub call on the current path
 
 
@@ -330,6 +331,15 @@ def stub_svd(a, full_matrices=True, compute_uv=True, **kw):
             for l in range(k):
                 tot = tot + U[i, l] * sv[l] * V[l, j]
             _eq(eng, tot, a[i, j], 'svd:USV=A')
+    if FROBENIUS_LEMMA[0]:
+        # implied by the contract above (U^H U = I, V V^H = I, U S V = A): sum |a_ij|^2 = sum s_k^2.  Opt-in (harness flag): a lemma,
+        # not an additional assumption; it spares the linear prover the degree-6 multipliers needed to derive it.
+        ta = Sym(); ts_ = Sym()
+        for x in a.reshape(-1):
+            ta = ta + S(x).abs2()
+        for l in range(k):
+            ts_ = ts_ + sv[l] * sv[l]
+        _eq(eng, ts_, ta, 'svd:frobenius')
     SVD_CALLS.append((U, sv, V))
     return U, sv, V
 
